@@ -19,6 +19,7 @@ def C01(ctx):
                        "a version is asked only the questions it can be embedded in (no '<>{}' / leading '=' after an operator, no '-' in a name's version)"]
     ctx.mc("MC_DeweyTok", "MC_DeweyTok.%s.cfg" % t)
     ctx.mc("MC_DeweyCmp", "MC_DeweyCmp.%s.cfg" % t)
+    ctx.mc("MC_TextEquiv", "MC_TextEquiv.%s.cfg" % t)      # fold-based tokeniser / comparison = recursive reference
     ctx.emit_replay("MC_DeweyPairs", "MC_DeweyPairs.%s.cfg" % t, "pairs")
     if not ctx.quick:
         # all ordered pairs of versions of <= 3 tokens over a 14-token alphabet (about 8 million pairs)
@@ -435,6 +436,8 @@ def C17(ctx):
                        "'promptly' = within the per-call watchdog (5 s quick / 30 s thorough) on inputs of at most a few KiB"]
     ctx.mc("MC_DeweyTok", "MC_DeweyTok.%s.cfg" % t)
     ctx.mc("MC_DeweyCmp", "MC_DeweyCmp.quick.cfg")
+    # the non-recursive formulations the specification uses on long inputs = the recursive ones
+    ctx.mc("MC_TextEquiv", "MC_TextEquiv.%s.cfg" % t)
     ctx.mc("MC_Summary", "MC_Summary.quick.cfg")
     ctx.mc("MC_Termination", "MC_Termination.%s.cfg" % t)
     rounds = 1 if ctx.quick else 10
